@@ -201,6 +201,24 @@ def targeted_programs(dev):
                     E("aspirate_well", rack="R", pos=I(1), vol=10000), E("set_diti", idx=I(1)), E("wash"), E("commit"),
                     E("set_diti", idx={"cls": "str", "v": "a;b"})]
         progs.append(h)
+    # a comment is a record too: a DiTi switch after a comment is neither "at the start" nor "directly after a break"
+    for name, seq in [("comment-first", ["comment", "set_diti"]), ("break-comment", ["commit", "comment", "set_diti"]),
+                      ("label-first", ["labelled", "set_diti"]), ("break-only", ["commit", "set_diti", "comment", "commit", "set_diti"])]:
+        lws = [gen.mk_plate("plate", 2, 2, 0, 10, [5, 0, 0, 0])]
+        h = gen.header(f"emit/diti-{name}", dev, Fraction(1), 950, lws, flags={"comp": False, "norm": False, "robot": False})
+        E2 = lambda fn, **a: {"op": "emit", "fn": fn, "args": a}
+        ops = []
+        for k in seq:
+            if k == "comment":
+                ops.append(E2("comment", text="note"))
+            elif k == "commit":
+                ops.append(E2("commit"))
+            elif k == "labelled":
+                ops.append({"op": "aspirate", "lw": 0, "wells": {"k": "l", "x": [[0, 0]]}, "vols": {"k": "s", "x": 0}, "label": "only a comment"})
+            else:
+                ops.append(E2("set_diti", idx=I(2)))
+        h["ops"] = ops
+        progs.append(h)
     # volume limits of the format and of the worklist
     lws = [gen.mk_plate("plate", 2, 2, 0, 10, [0, 0, 0, 0])]
     h = gen.header("emit/volume-limits", dev, Fraction(1), 10**7, lws, flags={"comp": False, "norm": False, "robot": False})
